@@ -50,3 +50,71 @@ package log
 //@   ensures[C08:full] len(fl) <= W ==> result == fl
 //@   ensures[C08:truncated] len(fl) > W ==> result == "..." + fl[len(fl) - max(W - 3, 0):]
 //@   replay W = c.FileLineLength; file = e.File; line = e.Line
+
+// ---- C01 / C10 / C11: levels, entry points, record ------------------------------------------------
+
+//@ spec fun enable(r LevelRange, l Level) bool = r.MinLevel.code <= l.code && l.code < r.MaxLevel.code
+
+//@ func (LevelRange).Enable
+//@   modifies nothing
+//@   ensures[C01:half-open] result == enable(c, l)
+//@   replay min = c.MinLevel.code; max = c.MaxLevel.code; code = l.code
+
+// what an invocation of Logger.Append is observed to carry (kept by the verifier, not by the code)
+//@ ghost var appended map[Logger]int
+//@ ghost var lastLevel map[Logger]Level
+//@ ghost var lastTag map[Logger]string
+//@ ghost var lastFields map[Logger][]Field
+//@ ghost var lastFile map[Logger]string
+//@ ghost var lastLine map[Logger]int
+//@ ghost var lastTime map[Logger]smt:S_time_Time
+//@ ghost var lastCtxString map[Logger]string
+//@ ghost var lastCtxFields map[Logger][]Field
+
+//@ iface Logger.GetLevel
+//@   pure_const
+
+//@ iface Logger.Append
+//@   requires e != nil
+//@   modifies appended[this], lastLevel[this], lastTag[this], lastFields[this], lastFile[this], lastLine[this], lastTime[this], lastCtxString[this], lastCtxFields[this], *e
+//@   ensures appended[this] == old(appended[this]) + 1
+//@   ensures lastLevel[this] == old(e.Level) && lastTag[this] == old(e.Tag) && lastFields[this] == old(e.Fields)
+//@   ensures lastFile[this] == old(e.File) && lastLine[this] == old(e.Line) && lastTime[this] == old(val(e.Time))
+//@   ensures lastCtxString[this] == old(e.CtxString) && lastCtxFields[this] == old(e.CtxFields)
+
+//@ spec fun loggerOf(tag *Tag) Logger = tag.logger != nil ? tag.logger : defaultLogger
+
+//@ func getLogger
+//@   requires tag != nil
+//@   modifies nothing
+//@   ensures[C01,C02,C16:bound-or-default] result == loggerOf(tag)
+
+//@ axiom defaultLogger != nil
+//@ axiom poolKind[addr(eventPool)] == typetag(*Event)
+
+//@ func GetEvent
+//@   modifies nothing
+//@   ensures[C01,C03,C10:nonnil] result != nil
+
+// FastCaller(skip) reports the frame skip+1 levels above its own frame, i.e. `skip` levels above its
+// caller.  ASSUMED for now (body not verified): stated from its documentation and TestCaller.
+//@ func FastCaller
+//@   trusted
+//@   modifies nothing
+//@   ensures deep(up($frame, skip + 1)) ==> file == frame_file(up($frame, skip + 1)) && line == frame_line(up($frame, skip + 1))
+//@   ensures !deep(up($frame, skip + 1)) ==> file == "" && line == 0
+
+//@ func record
+//@   requires logger != nil
+//@   let on = enable(Logger.GetLevel(logger), level)
+//@   modifies appended[logger], lastLevel[logger], lastTag[logger], lastFields[logger], lastFile[logger], lastLine[logger], lastTime[logger], lastCtxString[logger], lastCtxFields[logger], all(Event), calls(TimeNow), calls(StringFromContext), calls(FieldsFromContext)
+//@   ensures[C01,C10:disabled] !on ==> appended[logger] == old(appended[logger]) && calls(TimeNow) == old(calls(TimeNow)) && calls(StringFromContext) == old(calls(StringFromContext)) && calls(FieldsFromContext) == old(calls(FieldsFromContext))
+//@   ensures[C01:once] on ==> appended[logger] == old(appended[logger]) + 1 && lastLevel[logger] == level && lastTag[logger] == tag && lastFields[logger] == fields
+//@   ensures[C10:time] on && TimeNow != nil ==> calls(TimeNow) == old(calls(TimeNow)) + 1 && arg0(TimeNow) == ctx && lastTime[logger] == ret(TimeNow, calls(TimeNow))
+//@   ensures[C10:time-default] on && TimeNow == nil ==> calls(TimeNow) == old(calls(TimeNow))
+//@   ensures[C10:ctx-string] on && StringFromContext != nil ==> calls(StringFromContext) == old(calls(StringFromContext)) + 1 && arg0(StringFromContext) == ctx && lastCtxString[logger] == ret(StringFromContext, calls(StringFromContext))
+//@   ensures[C10:ctx-string-default] on && StringFromContext == nil ==> lastCtxString[logger] == "" && calls(StringFromContext) == old(calls(StringFromContext))
+//@   ensures[C10:ctx-fields] on && FieldsFromContext != nil ==> calls(FieldsFromContext) == old(calls(FieldsFromContext)) + 1 && arg0(FieldsFromContext) == ctx && lastCtxFields[logger] == ret(FieldsFromContext, calls(FieldsFromContext))
+//@   ensures[C10:ctx-fields-default] on && FieldsFromContext == nil ==> lastCtxFields[logger] == nil && calls(FieldsFromContext) == old(calls(FieldsFromContext))
+//@   ensures[C11:caller] on && enableCaller && deep(up($frame, skip + 1)) ==> lastFile[logger] == frame_file(up($frame, skip + 1)) && lastLine[logger] == frame_line(up($frame, skip + 1))
+//@   ensures[C11:no-caller] on && !enableCaller ==> lastFile[logger] == "" && lastLine[logger] == 0
